@@ -188,7 +188,7 @@ class TrainCase(BaseCase):
 
 class C01(TrainCase):
     pid = 'C01'
-    gen_kw = dict(restarts=0.0, extras=0.3, scheduler=0.15, max_ops=8)
+    gen_kw = dict(restarts=0.2, extras=0.3, scheduler=0.15, max_ops=8)
     force_monitors = {'read_factors': True}
     expected_probes = ['c01_solves_checked', 'steps_stale',
                        'inflight_poison']
@@ -315,15 +315,15 @@ class C03(TrainCase):
 
     def gen(self, rng: random.Random, tier: str) -> dict[str, Any]:
         r = rng.random()
-        if r < 0.15:
+        if r < 0.12:
             from simkfac import comm
 
             return comm.gen_comm_plan(rng, tier=tier, symmetric_only=False,
                                       mixed_dtypes=rng.random() < 0.3)
-        if r < 0.3:
+        if r < 0.37:
             from simkfac import neox
 
-            return neox.gen_neox_plan(rng, tier, restarts=0.5)
+            return neox.gen_neox_plan(rng, tier, restarts=0.6)
         return super().gen(rng, tier)
 
     def brief(self, plan: dict[str, Any]) -> Any:
@@ -404,6 +404,20 @@ class C19(TrainCase):
                     bad('C19.expdecay_not_monotone', k=k, cap=cap)
                     break
                 prev = v
+            # the schedule is a function of k alone: the same object asked
+            # again, out of order (a rollback, two users of one schedule)
+            import random as _r2
+
+            rr = _r2.Random(int(cap * 1000) + 17)
+            for k in [rr.randrange(0, plan['hi']) for _ in range(200)] + [
+                    0, 1, 2, 3, 5, 19, 20, 21]:
+                v = f(k)
+                want = min(1 - 1 / max(k, 1), cap)
+                oc.stats['expdecay_values_checked'] += 1
+                if v != want:
+                    bad('C19.expdecay_depends_on_history', k=k, cap=cap,
+                        got=v, want=want)
+                    break
             for badcap in (0, -1.0):
                 try:
                     exp_decay_factor_averaging(badcap)
